@@ -876,6 +876,21 @@ func (x *Exec) arith(st *State, op token.Token, a, b *Term, t types.Type, what s
 		case token.SUB:
 			return c.bvbin("bvsub", a, b)
 		case token.MUL:
+			if rc := x.rootOrCon(); rc != nil && rc.AbstractMul && !a.IsLit() && !b.IsLit() {
+				if a.id > b.id { // commutative: canonical argument order
+					a, b = b, a
+				}
+				fnm := fmt.Sprintf("umul%d", w)
+				if _, ok := c.funcs[fnm]; !ok {
+					c.DeclareFun(fnm, []Sort{a.sort, a.sort}, a.sort)
+					v := c.Bound("v", a.sort)
+					z := c.BV64(w, 0)
+					one := c.BV64(w, 1)
+					c.AddAxiom(fnm, c.Forall([]*Term{v}, c.And(c.Eq(c.App(fnm, z, v), z), c.Eq(c.App(fnm, v, z), z), c.Eq(c.App(fnm, one, v), v), c.Eq(c.App(fnm, v, one), v)),
+						[]*Term{c.App(fnm, z, v)}, []*Term{c.App(fnm, v, z)}, []*Term{c.App(fnm, one, v)}, []*Term{c.App(fnm, v, one)}))
+				}
+				return x.uninterp(fnm, a.sort, a, b)
+			}
 			return c.bvbin("bvmul", a, b)
 		case token.QUO:
 			x.safety(st, "div", "divisor non-zero in "+what, c.Neq(b, c.BV64(w, 0)))
